@@ -11,6 +11,7 @@ assert sh('git -C %s status --porcelain' % REPO).stdout.strip() == '', REPO + ' 
 res = []
 for d in sorted(glob.glob(HERE + '/seeded/*/')):
     sid = os.path.basename(d.rstrip('/'))
+    if not os.path.exists(d + 'meta.json'): continue   # e.g. seeded/retired/
     if sel and not any(s in sid for s in sel): continue
     meta = json.load(open(d + 'meta.json'))
     for prop in (meta['caught_by'] or meta['missed_by'])[:1]:
